@@ -294,7 +294,7 @@ var (
 			otherwise. Useful as an explicit boolean conversion.`},
 		{"type", Formals("value"), builtinType,
 			`Returns a symbol naming the type of value (e.g. 'int, 'float,
-			'string, 'list, 'sorted-map, 'array, 'bytes, 'fun).`},
+			'string, 'list, 'sorted-map, 'array, 'bytes, 'function).`},
 		{"type?", Formals("type-specifier", "value"), builtinIsType,
 			`Returns true if value matches the type-specifier symbol. Also
 			accepts a tagged typedef for user-defined types.`},
